@@ -957,7 +957,12 @@ func (vx *Vaxis) handleSequence(seq ansi.Sequence) {
 					vx.PostEventBlocking(textAreaChar{})
 					return
 				}
-				vx.chSizeDone <- true
+				select {
+				case vx.chSizeDone <- true:
+				default:
+					// nobody asked: an unsolicited report must not
+					// block the input loop
+				}
 			case 48:
 				// CSI <type> ; <height> ; <width> ; <height_pix> ; <width_pix> t
 				switch len(seq.Parameters) {
